@@ -104,8 +104,9 @@ impl SymbolsExportsModule {
         }
     }
     pub fn set_default_export(&mut self, export: Rc<SymbolExportDefault>) {
+        // a second default export is an error of the program, not of the compiler: the first one stays
         if self.export_default.is_some() {
-            panic!("Default export already set");
+            return;
         }
         self.export_default = Some(export);
     }
@@ -123,10 +124,24 @@ impl SymbolsExportsModule {
         name: &String,
         files: &mut R,
     ) -> Option<Rc<SymbolExport>> {
+        self.get_value_visiting(name, files, &mut vec![])
+    }
+
+    // `export * from` chains may be cyclic: every file is searched once
+    fn get_value_visiting<R: FileManager>(
+        &self,
+        name: &String,
+        files: &mut R,
+        visited: &mut Vec<BffFileName>,
+    ) -> Option<Rc<SymbolExport>> {
         let known = self.named_values.get(name).cloned().or_else(|| {
             for it in &self.extends {
+                if visited.contains(it) {
+                    continue;
+                }
+                visited.push(it.clone());
                 let file = files.get_or_fetch_file(it)?;
-                let res = file.symbol_exports.get_value(name, files);
+                let res = file.symbol_exports.get_value_visiting(name, files, visited);
                 if let Some(it) = res {
                     return Some(it.clone());
                 }
@@ -158,10 +173,23 @@ impl SymbolsExportsModule {
         name: &String,
         files: &mut R,
     ) -> Option<Rc<SymbolExport>> {
+        self.get_type_visiting(name, files, &mut vec![])
+    }
+
+    fn get_type_visiting<R: FileManager>(
+        &self,
+        name: &String,
+        files: &mut R,
+        visited: &mut Vec<BffFileName>,
+    ) -> Option<Rc<SymbolExport>> {
         let known = self.named_types.get(name).cloned().or_else(|| {
             for it in &self.extends {
+                if visited.contains(it) {
+                    continue;
+                }
+                visited.push(it.clone());
                 let file = files.get_or_fetch_file(it)?;
-                let res = file.symbol_exports.get_type(name, files);
+                let res = file.symbol_exports.get_type_visiting(name, files, visited);
                 if let Some(it) = res {
                     return Some(it.clone());
                 }
